@@ -264,9 +264,6 @@ func resolve(path string, cfg any) (segs []string, ell bool, ok bool) {
 	if rest != "" {
 		segs = append(segs, strings.Split(rest, "/")...)
 	}
-	if len(segs) == 1 {
-		return nil, false, false // the root object itself: /id/<id> is answered by a 301 (see checkIDs)
-	}
 	if segs[len(segs)-1] == "..." {
 		return segs[:len(segs)-1], true, true
 	}
